@@ -4,6 +4,8 @@ import (
 	"os"
 	"os/signal"
 	"syscall"
+
+	"github.com/hydraide/hydraide/app/verifrt/vos"
 )
 
 func ignoreXFSZ() { signal.Ignore(syscall.SIGXFSZ) }
@@ -17,38 +19,17 @@ func (h *H) Snapshot(path string) {
 	h.mu.Unlock()
 }
 
-// nativeCrash rebuilds the crash image: Extra["crash"] = {"base": i, "next": j, "ranges": [[off,len],...]}
-// image = snapshot[base] overlaid, for each range, with the bytes of snapshot[next]; truncated/extended accordingly.
+// nativeCrash rebuilds the crash image from the real operation log recorded by package vos
+// (the package under test is compiled with its "os" import pointed at vos for replay):
+// Extra["crashPlan"] = {"k": index into the operation log, "torn": bytes of operation k applied}.
 func (h *H) nativeCrash(path string) bool {
 	plan, ok := h.rp.Extra["crashPlan"].(map[string]any)
 	if !ok {
 		return false
 	}
-	snaps := h.snaps[path]
-	base := int(plan["base"].(float64))
-	next := int(plan["next"].(float64))
-	if base >= len(snaps) || next >= len(snaps) {
-		panic("verifrt: crash plan refers to a missing snapshot")
-	}
-	img := append([]byte(nil), snaps[base]...)
-	nb := snaps[next]
-	if rs, ok := plan["ranges"].([]any); ok {
-		for _, r := range rs {
-			rr := r.([]any)
-			off, n := int(rr[0].(float64)), int(rr[1].(float64))
-			for i := 0; i < n; i++ {
-				if off+i >= len(nb) {
-					break
-				}
-				for len(img) <= off+i {
-					img = append(img, 0)
-				}
-				img[off+i] = nb[off+i]
-			}
-		}
-	}
-	if err := os.WriteFile(path, img, 0o644); err != nil {
-		panic(err)
-	}
-	return true
+	k := int(plan["k"].(float64))
+	torn := int(plan["torn"].(float64))
+	lost, _ := plan["lost"].(bool)
+	vos.Rebuild(h.TempDir(), k, torn)
+	return lost
 }
